@@ -90,6 +90,8 @@ def main(argv):
     for i in range(n):
         if i % 3:
             ps, pm, rs, rm = (rng.choice(sels) for _ in range(4))
+            if i % 7 == 1:
+                rs, rm = ps, pm          # the same selection on both sides: each side is still matched against its own ports only
             pp = rng.choice(subsets)
             rp = [x + '_r' for x in rng.choice(subsets)] if rng.random() < 0.5 else rng.choice(subsets)
         else:   # name sets of 4-8 beyond the small scope
